@@ -471,7 +471,7 @@ func run(c *core.Ctx) {
 	c.Bound("uninflected_patterns_read_from_tree", len(uninfl))
 	c.Bound("prefixes", prefixes)
 	c.Bound("short_string_alphabet", shortAlphabet)
-	c.Bound("short_string_max_len", c.Pick(3, 4))
+	c.Bound("short_string_max_len", c.Pick(3, 5))
 
 	// every irregular word (both columns, both directions) x prefixes x cases
 	for _, it := range irr {
@@ -534,7 +534,7 @@ func run(c *core.Ctx) {
 	}
 	// all short strings
 	core.Explore(c, core.ExploreOpts{Bound: -1}, func(ch *core.Chooser, _ bool) {
-		s := buildStr(ch, shortAlphabet, c.Pick(3, 4))
+		s := buildStr(ch, shortAlphabet, c.Pick(3, 5))
 		if !c.Next() {
 			return
 		}
